@@ -313,9 +313,10 @@ func (j *powJudge) judgePair(x, y ref.Bits, only string, onlyMode int) {
 		diff.Abs(diff)
 		if diff.Cmp(tol) > 0 {
 			ratio, _ := new(big.Float).Quo(diff, tol).Float64()
-			exc := ratio - 1
+			excF := new(big.Float).SetPrec(ref.TransPrec).Sub(diff, tol)
+			exc, _ := excF.Quo(excF, tol).Float64() // (error - allowance) / allowance, kept small values exactly
 			want := fmt.Sprintf("within u + |t||y|(4e-37|ln|x||+1e-55) of %s", t.Text('g', 45))
-			j.sh.ViolateM(mk(), "accuracy", want, fmt.Sprintf("%v (error/allowance = %.6g)", g, ratio), detail, exc)
+			j.sh.ViolateM(mk(), "accuracy", want, fmt.Sprintf("%v (error/allowance = %.6g, excess = %.3g of the allowance)", g, ratio, exc), detail, exc)
 			return
 		}
 		ratio, _ := new(big.Float).Quo(diff, tol).Float64()
